@@ -432,6 +432,12 @@ def scrape_counter():
     limit = re.search(r"pub const MAX_PER_CLASS: u8 = (\d+);", t)
     checked = bool(limit) and bool(re.search(r"assert!\(\s*count <= MAX_PER_CLASS", t)) and "+=" not in t and bool(re.search(r"fn bump\(field: &mut u8, by: usize\)", t))
     unchecked = len(re.findall(r"\+= ", t)) >= 16 and not limit
+    sv = read("idlc_ast_passes/src/struct_verifier.rs")
+    sz_checked = bool(re.search(r"\.checked_mul\(count\)\s*\.and_then\(\|bytes\| size\.checked_add\(bytes\)\)\s*\.ok_or_else\(\|\| Error::StructTooLarge", sv))
+    sz_unchecked = "size += i_size * count;" in sv
+    facts["struct_size_checked"] = sz_checked
+    if sz_checked == sz_unchecked:
+        problems.append("struct_verifier.rs: how the struct size is accumulated is not recognised")
     facts["counter_checked"] = checked
     facts["counter_limit"] = int(limit.group(1)) if (limit and checked) else 255
     if checked == unchecked:
@@ -441,7 +447,7 @@ def scrape_counter():
 
 def render_counter(facts):
     return ("(* GENERATED by lib/translate.py: arithmetic and limit of idlc_codegen::counts::Counter. *)\nRequire Import Base.\n\n"
-            "Definition counter_checked : bool := %s.\nDefinition counter_limit : N := %d.\n" % ("true" if facts["counter_checked"] else "false", facts["counter_limit"]))
+            "Definition counter_checked : bool := %s.\nDefinition counter_limit : N := %d.\nDefinition struct_size_checked : bool := %s.\n" % ("true" if facts["counter_checked"] else "false", facts["counter_limit"], "true" if facts["struct_size_checked"] else "false"))
 
 
 def render_own(facts):
